@@ -1,11 +1,13 @@
 package main
 
 import (
+	"encoding/json"
 	"fmt"
 	"math"
 	"math/big"
 	"strconv"
 	"strings"
+	"sync"
 	"time"
 
 	"github.com/iden3/go-schema-processor/v2/merklize"
@@ -63,7 +65,30 @@ func canonTable(ss ...string) J {
 	return t
 }
 
+// hashLog, when set, records every standalone hashing call of the run so that a sample can be repeated later in
+// another order: the encoding must be a function of (hasher, datatype, value), not of what was hashed before.
+type hashRec struct {
+	h    merklize.Hasher
+	dt   string
+	v    any
+	impl string
+}
+
+var hashLog *[]hashRec
+var hashLogMu sync.Mutex
+
 func implHash(h merklize.Hasher, dt string, v any) J {
+	out := implHash0(h, dt, v)
+	if hashLog != nil {
+		b, _ := json.Marshal(out)
+		hashLogMu.Lock()
+		*hashLog = append(*hashLog, hashRec{h, dt, v, string(b)})
+		hashLogMu.Unlock()
+	}
+	return out
+}
+
+func implHash0(h merklize.Hasher, dt string, v any) J {
 	r, err := guard(5*time.Second, func() (*big.Int, error) {
 		x, e := merklize.HashValueWithHasher(h, dt, v)
 		if e == nil && x == nil {
@@ -311,7 +336,37 @@ func (g *c04gen) datasetSequence(hs HSpec) {
 	g.out.Emit(c)
 }
 
+// replayReordered repeats a sample of the hashing calls of the run in a shuffled order (hashers interleaved) and
+// requires the same result: no state may be carried from one call to another.
+func (g *c04gen) replayReordered(log []hashRec) {
+	const max = 4000
+	perm := g.r.Perm(len(log))
+	if len(perm) > max {
+		perm = perm[:max]
+	}
+	bad := 0
+	for _, i := range perm {
+		rec := log[i]
+		b, _ := json.Marshal(implHash0(rec.h, rec.dt, rec.v))
+		if string(b) != rec.impl && bad < 5 {
+			bad++
+			g.out.Emit(Case{Op: "none", In: J{"dt": rec.dt, "val": fmt.Sprint(rec.v), "prime": rec.h.Prime().String()}, Impl: J{"first": rec.impl, "later": string(b)},
+				Prop: &PropRes{OK: false, Why: fmt.Sprintf("HashValue(%s, %v) under prime %v gave %s first and %s when repeated later in the same process, after other hashers had been used", rec.dt, rec.v, rec.h.Prime(), rec.impl, string(b))},
+				Tags: []string{"reordered-replay"}, NT: true})
+		}
+	}
+	if bad == 0 {
+		g.out.Emit(Case{Op: "none", In: J{"replayed": len(perm)}, Impl: J{}, Prop: &PropRes{OK: true}, Tags: []string{"reordered-replay"}, NT: true})
+	}
+}
+
 func (g *c04gen) run(tier string, n int) {
+	var log []hashRec
+	hashLog = &log
+	defer func() {
+		hashLog = nil
+		g.replayReordered(log)
+	}()
 	for i := 0; i < n/3+20; i++ {
 		g.datasetSequence([]HSpec{hPoseidon(), hSmall(251), hSmall(65537), hSalted(), hSmall(2305843009213693951)}[g.r.Intn(5)])
 	}
@@ -362,7 +417,7 @@ func (g *c04gen) run(tier string, n int) {
 		}
 	}
 	// (3) booleans
-	for _, hs := range []HSpec{hPoseidon(), hShifted(), hSmall(251)} {
+	for _, hs := range []HSpec{hSmall(3), hPoseidon(), hSmall(5), hShifted(), hSmall(251), hSalted(), hSmall(7), hSmall(65537), hSmall(2305843009213693951), hSmall(3)} {
 		h1, _ := hs.H.Hash([]*big.Int{big.NewInt(1)})
 		h0, _ := hs.H.Hash([]*big.Int{big.NewInt(0)})
 		for _, s := range []string{"true", "1", "1.0E0"} {
